@@ -207,7 +207,8 @@ def run(ctx):
     # normal last components, apostrophes at the very end of the value, quotes around it (malformed), via flag and HD_PATH
     seed = pyref.bip39_seed(phrase, "")
     good, runs = [], []
-    for comps in ([(1, 0)], [(0, 0)], [(1, 44), (1, 60), (1, 0)], [(1, 44), (1, 60), (1, 0), (0, 0), (1, 7)], [(1, B31 - 1)], [(0, B31 - 1)],
+    for comps in ([(0, 44), (0, 60), (0, 0), (0, 0), (0, 0)], [(0, 44), (0, 60)], [(0, 44), (0, 60), (1, 7)], [(0, 44), (1, 60), (0, 0)], [(1, 44), (0, 60), (0, 0)], [(0, 44)],
+                  [(0, 60)], [(1, 0)], [(0, 0)], [(1, 44), (1, 60), (1, 0)], [(1, 44), (1, 60), (1, 0), (0, 0), (1, 7)], [(1, B31 - 1)], [(0, B31 - 1)],
                   [(rng.randrange(2), rng.randrange(B31)) for _ in range(rng.randrange(1, 6))] + [(1, rng.randrange(100))]):
         t = "m/" + "/".join("%d%s" % (v, "'" if h else "") for h, v in comps)
         key = pyref.bip32_derive(seed, [v | (B31 if h else 0) for h, v in comps])
